@@ -8,16 +8,27 @@ import TpmVerif.Gen.Cmds
 
   The model is on the wire level: it is given the command bytes and the secrets the TPM holds (entity names and
   authValues, per-session nonceTPM / sessionKey / bound entity) and decides what `SessionProcess.c` decides.
-  Hash algorithm of the sessions is SHA-256 (what the harness uses); HMAC and password sessions; policy sessions are
-  not modelled.
+  Hash algorithm of the sessions is SHA-256 (what the harness uses); password, HMAC (unbound/bound) and policy sessions with
+  PolicyAuthValue / PolicyPassword / PolicyCommandCode / PolicyOR / PolicyRestart.
 -/
 namespace TpmVerif.Model.Auth
 open TpmVerif TpmVerif.Crypto
 
+/-- which authorizations the entity's attributes allow (NV: AUTHREAD/AUTHWRITE/POLICYREAD/POLICYWRITE; objects:
+    userWithAuth / adminWithPolicy; hierarchies: authValue always) -/
 structure Entity where
   handle : Nat
   name : Bytes
   auth : Bytes            -- stored with trailing zeros removed
+  policy : Bytes := []    -- authPolicy (SHA-256), empty = none
+  isNv : Bool := false
+  isObject : Bool := false
+  authRead : Bool := true
+  authWrite : Bool := true
+  polRead : Bool := true
+  polWrite : Bool := true
+  userWithAuth : Bool := true
+  adminWithPolicy : Bool := false
   deriving Repr
 
 structure Session where
@@ -27,6 +38,13 @@ structure Session where
   bound : Bool
   bindName : Bytes
   bindAuth : Bytes
+  -- policy sessions
+  policy : Bool := false
+  trial : Bool := false
+  pDigest : Bytes := List.replicate 32 0
+  needAuth : Bool := false     -- isAuthValueNeeded (PolicyAuthValue)
+  needPw : Bool := false       -- isPasswordNeeded (PolicyPassword)
+  pcc : Nat := 0               -- commandCode fixed by PolicyCommandCode, 0 = none
   deriving Repr
 
 structure St where
@@ -124,42 +142,157 @@ def authMsg (cph nonceNewer nonceOlder : Bytes) (attrs : Nat) : Bytes := cph ++ 
 def expectedHmac (s : Session) (e : Entity) (cph : Bytes) (a : AuthIn) : Bytes :=
   hmac sha256 (hmacKey s e) (authMsg cph a.nonce s.nonceTPM a.attrs)
 
-/-- one authorization: password (compare with trailing zeros removed) or HMAC session -/
-def checkOne (st : St) (e : Entity) (cph : Bytes) (a : AuthIn) : Bool :=
-  if a.sh = TPM_RS_PW then stripZeros a.hmac == e.auth
+
+inductive Role where | user | admin | dup
+  deriving Repr, DecidableEq
+
+/-- `CommandAuthRole` from the generated COMMAND_ATTRIBUTES word -/
+def roleOf (attr : Nat) (i : Nat) : Role :=
+  if i = 0 then (if attr &&& 0x20 ≠ 0 then .admin else if attr &&& 0x40 ≠ 0 then .dup else .user) else .user
+
+/-- `IsWriteOperation` -/
+def isNvWrite (cc : Nat) : Bool := cc == 0x137 || cc == 0x134 || cc == 0x135 || cc == 0x136 || cc == 0x138
+
+/-- `IsPolicySessionRequired` (PCR policies left out) -/
+def policyRequired (r : Role) (e : Entity) : Bool :=
+  match r with
+  | .dup => true
+  | .admin => !(e.isObject && !e.adminWithPolicy)
+  | .user => false
+
+/-- `IsAuthValueAvailable` -/
+def authAvail (e : Entity) (cc : Nat) (r : Role) : Bool :=
+  if e.isNv then (if isNvWrite cc then e.authWrite else e.authRead)
+  else if e.isObject then e.userWithAuth || (r == .admin && !e.adminWithPolicy)
+  else true
+
+/-- `IsAuthPolicyAvailable` -/
+def policyAvail (e : Entity) (cc : Nat) (r : Role) : Bool :=
+  if e.isNv then e.policy ≠ [] && (policyRequired r e || (if isNvWrite cc then e.polWrite else e.polRead))
+  else if e.isObject then true
+  else e.policy ≠ []
+
+/-- outcome of checking one authorization -/
+inductive Check where
+  | pass
+  | failAuth          -- TPM_RC_AUTH_FAIL / TPM_RC_BAD_AUTH
+  | failPolicy        -- TPM_RC_POLICY_FAIL
+  | failPolicyCC      -- TPM_RC_POLICY_CC
+  | unavailable       -- TPM_RC_AUTH_UNAVAILABLE
+  | authType          -- TPM_RC_AUTH_TYPE
+  | badAttributes     -- TPM_RC_ATTRIBUTES (audit attribute on a policy or password session)
+  | noSession
+  deriving Repr, DecidableEq
+
+/-- `CheckSessionHMAC` with `ComputeCommandHMAC`: an empty key with an empty HMAC field passes -/
+def hmacCheck (s : Session) (key : Bytes) (cph : Bytes) (a : AuthIn) : Check :=
+  if key = [] ∧ a.hmac = [] then .pass
+  else if a.hmac == hmac sha256 key (authMsg cph a.nonce s.nonceTPM a.attrs) then .pass else .failAuth
+
+def pwCheck (e : Entity) (a : AuthIn) : Check := if stripZeros a.hmac == e.auth then .pass else .failAuth
+
+/-- `CheckPolicyAuthSession` (timeout, locality, PP, cpHash/nameHash, nvWritten, PCR left out: the harness never sets them) -/
+def policyCheck (s : Session) (e : Entity) (cc : Nat) (r : Role) : Check :=
+  if s.pDigest ≠ e.policy then .failPolicy
+  else if s.pcc ≠ 0 then (if s.pcc ≠ cc then .failPolicyCC else .pass)
+  else if r ≠ .user then .failPolicy
+  else .pass
+
+/-- one authorization (`CheckAuthSession`): password, HMAC session or policy session -/
+def checkOne (st : St) (e : Entity) (cc : Nat) (r : Role) (cph : Bytes) (a : AuthIn) : Check :=
+  if a.sh = TPM_RS_PW then
+    if a.attrs &&& 0xE6 ≠ 0 then .badAttributes      -- encrypt/decrypt/audit* on the password session (`RetrieveSessionData`)
+    else if policyRequired r e then .authType
+    else if !authAvail e cc r then .unavailable
+    else pwCheck e a
   else match st.session a.sh with
-    | none => false
-    | some s => a.hmac == expectedHmac s e cph a
+    | none => .noSession
+    | some s =>
+      if s.policy && a.attrs &&& 0x80 ≠ 0 then .badAttributes else
+      if !s.policy then
+        if policyRequired r e then .authType
+        else if !authAvail e cc r then .unavailable
+        else hmacCheck s (hmacKey s e) cph a
+      else
+        if !policyAvail e cc r then .unavailable
+        else match policyCheck s e cc r with
+          | .pass => if s.needPw then pwCheck e a else hmacCheck s (s.key ++ (if s.needAuth then e.auth else [])) cph a
+          | bad => bad
 
 inductive Verdict where
   | ok
   | authMissing
-  | authFail (i : Nat)      -- the i-th authorization (0-based) does not verify
+  | authFail (i : Nat) (why : Check)     -- the i-th authorization (0-based) does not verify
   | unknownEntity
   deriving Repr, DecidableEq
 
 /-- check authorizations `i, i+1, …` against the handles that need one -/
-def checkFrom (st : St) (cph : Bytes) : List Nat → List AuthIn → Nat → Verdict
+def checkFrom (st : St) (cc attr : Nat) (cph : Bytes) : List Nat → List AuthIn → Nat → Verdict
   | [], _, _ => .ok
   | _ :: _, [], _ => .authMissing
   | h :: hs, a :: as, i =>
     match st.ent h with
     | none => .unknownEntity
-    | some e => if checkOne st e cph a then checkFrom st cph hs as (i + 1) else .authFail i
+    | some e =>
+      match checkOne st e cc (roleOf attr i) cph a with
+      | .pass => checkFrom st cc attr cph hs as (i + 1)
+      | bad => .authFail i bad
 
 /-- the decision of `ExecuteCommand` up to the start of the command's own code -/
 def authorize (st : St) (c : Cmd) (attr : Nat) : Verdict :=
   let need := requiredAuths attr
   let names := c.handles.map (fun h => ((st.ent h).map (·.name)).getD (be32 h))
   if c.auths.length < need then .authMissing else
-  checkFrom st (cpHash c.cc names c.params) (c.handles.take need) c.auths 0
+  checkFrom st c.cc attr (cpHash c.cc names c.params) (c.handles.take need) c.auths 0
 
 /-- session key of a session started with `bind` (no salt): KDFa(authValue(bind), "ATH", nonceTPM, nonceCaller) -/
 def sessionKey (bindAuth nonceTPM nonceCaller : Bytes) : Bytes := kdfa sha256 bindAuth "ATH" nonceTPM nonceCaller 256
 
 /-- the response HMAC the caller must see: HMAC(key, rpHash ‖ nonceTPM(new) ‖ nonceCaller ‖ attrs) -/
-def expectedRspHmac (s : Session) (e : Entity) (cc : Nat) (rparams nonceTPMnew nonceCaller : Bytes) (attrs : Nat) : Bytes :=
-  hmac sha256 (hmacKey s e) (authMsg (rpHash cc rparams) nonceTPMnew nonceCaller attrs)
+def expectedRspHmac (key : Bytes) (cc : Nat) (rparams nonceTPMnew nonceCaller : Bytes) (attrs : Nat) : Bytes :=
+  hmac sha256 key (authMsg (rpHash cc rparams) nonceTPMnew nonceCaller attrs)
+
+/-- the key the session uses for this entity (command and response direction) -/
+def sessKey (s : Session) (e : Entity) : Bytes :=
+  if s.policy then s.key ++ (if s.needAuth then e.auth else []) else hmacKey s e
+
+/-! ### Policy sessions: the digest the TPM accumulates -/
+
+def CC_PolicyAuthValue : Nat := 0x16B
+def CC_PolicyCommandCode : Nat := 0x16C
+def CC_PolicyOR : Nat := 0x171
+def CC_PolicyPassword : Nat := 0x18C
+def RC_VALUE : Nat := 0x084
+
+inductive PolicyOp where
+  | authValue
+  | password
+  | commandCode (code : Nat)
+  | or (digests : List Bytes)
+  | restart
+  deriving Repr
+
+/-- PolicyOR is accepted by a trial session always, by a real session when the current digest is listed -/
+def orOk (s : Session) (ds : List Bytes) : Bool := s.trial || ds.contains s.pDigest
+/-- PolicyCommandCode is refused when a different command code is already fixed -/
+def ccConflict (s : Session) (code : Nat) : Bool := s.pcc != 0 && s.pcc != code
+
+/-- one policy command on a policy/trial session: new session and return code (0 = success; otherwise the base code) -/
+def policyStep (s : Session) : PolicyOp → Session × Nat
+  | .authValue => ({ s with pDigest := hash sha256 (s.pDigest ++ be32 CC_PolicyAuthValue), needAuth := true, needPw := false }, 0)
+  | .password => ({ s with pDigest := hash sha256 (s.pDigest ++ be32 CC_PolicyAuthValue), needPw := true, needAuth := false }, 0)
+  | .commandCode code =>
+      if ccConflict s code then (s, RC_VALUE)
+      else ({ s with pDigest := hash sha256 (s.pDigest ++ be32 CC_PolicyCommandCode ++ be32 code), pcc := code }, 0)
+  | .or ds =>
+      if orOk s ds then
+        ({ s with pDigest := hash sha256 (List.replicate 32 0 ++ be32 CC_PolicyOR ++ ds.flatten) }, 0)
+      else (s, RC_VALUE)
+  | .restart => ({ s with pDigest := List.replicate 32 0, needAuth := false, needPw := false, pcc := 0 }, 0)
+
+/-- after a policy session authorized a command its policy data is reset (`SessionResetPolicyData`) -/
+def resetPolicy (s : Session) : Session :=
+  if s.policy then { s with pDigest := List.replicate 32 0, needAuth := false, needPw := false, pcc := 0 } else s
 
 /-- after a successful command the session's nonceTPM is the one in the response -/
 def St.rollNonce (st : St) (sh : Nat) (n : Bytes) : St :=
